@@ -25,7 +25,7 @@ CACHE = os.environ.get('VERIF_KANI_CACHE', '/var/tmp/zkverif-cache')
 def scratch_ws(repo, members, patch_shim=False):
     wd = tempfile.mkdtemp(prefix='zkreplay.', dir=os.environ.get('VERIF_SCRATCH', '/var/tmp'))
     for m in members:
-        shutil.copytree(os.path.join(repo, m), os.path.join(wd, m), ignore=shutil.ignore_patterns('target', 'benches'))
+        shutil.copytree(os.path.join(repo, m), os.path.join(wd, m), ignore=shutil.ignore_patterns('target', 'benches'), copy_function=shutil.copy)  # fresh mtimes: the shared target dir must never consider a stale lib fresh
         ct = os.path.join(wd, m, 'Cargo.toml')
         s = open(ct).read()
         s = re.sub(r'\[\[bench\]\][^\[]*', '', s)
